@@ -48,11 +48,12 @@ ErrRef(x) == IF x.prefix \in {"int", "none", "bytes"} THEN "TypeError"
              ELSE "ok"
 
 (* parse_host_port(escape_ipv6(host) + ':' + port) = (host, port); no port -> default *)
-Hosts == {"name", "fqdn", "ipv4", "ipv6", "ipv6_full", "ipv6_scoped", "ipv6_v4mapped"}
+\* scope1 / scope15: the shortest and the longest legal zone index (1 and 15 characters)
+Hosts == {"name", "fqdn", "ipv4", "ipv6", "ipv6_full", "ipv6_scoped", "ipv6_scope1", "ipv6_scope15", "ipv6_v4mapped"}
 HpCases == {[k |-> "hp", host |-> h, port |-> p, dflt |-> d] :
               h \in Hosts, p \in {"absent", "0", "1", "80", "65535"}, d \in {"none", "1234", "0", "65535"}}
 HpRef(x) == [host |-> x.host, port |-> IF x.port = "absent" THEN x.dflt ELSE x.port]
-EscapeRef(h) == h \in {"ipv6", "ipv6_full", "ipv6_scoped", "ipv6_v4mapped"}      \* bracketed iff IPv6
+EscapeRef(h) == h \in {"ipv6", "ipv6_full", "ipv6_scoped", "ipv6_scope1", "ipv6_scope15", "ipv6_v4mapped"}      \* bracketed iff IPv6
 
 (* urlsplit: components in, components out *)
 UrlCases == {[k |-> "url", scheme |-> s, user |-> u, host |-> h, port |-> p, path |-> pa, query |-> q, frag |-> f,
